@@ -384,11 +384,11 @@ func c16r4(r *R) {
 func c16r5(r *R) {
 	cfg := r.method("command/run", "command", "configureHeadersModifiers")
 	var reqLit, resLit *ssa.Function
-	for _, lit := range cfg.AnonFuncs {
-		if len(lit.Params) != 1 {
+	for _, lit := range anonFuncs(cfg) {
+		if len(litParams(lit)) != 1 {
 			continue
 		}
-		switch typeStr(lit.Params[0].Type()) {
+		switch typeStr(litParams(lit)[0].Type()) {
 		case "*net/http.Request":
 			reqLit = lit
 		case "*net/http.Response":
@@ -410,6 +410,9 @@ func c16r5(r *R) {
 			if i < len(b) {
 				target = b[i]
 			}
+		} else if len(eff) == 1 && strings.HasPrefix(eff[0], "(header.Headers).ModifyRequest(") && strings.HasSuffix(eff[0], ", $0)") {
+			// already in the configuring function's terms (a method of a carrier struct built there)
+			target = strings.TrimSuffix(strings.TrimPrefix(eff[0], "(header.Headers).ModifyRequest("), ", $0)")
 		}
 		isConnect := p.holds(`($0.Method == "CONNECT")`)
 		notConnect := p.holds(`!($0.Method == "CONNECT")`)
@@ -434,7 +437,8 @@ func c16r5(r *R) {
 		if isConnect && len(eff) == 0 {
 			nSkip++
 		}
-		applied := len(eff) == 1 && strings.HasPrefix(eff[0], "(header.Headers).ModifyResponse(^0, $0)") && len(b) > 0 && b[0] == "$0.responseHeaders"
+		applied := len(eff) == 1 && (strings.HasPrefix(eff[0], "(header.Headers).ModifyResponse(^0, $0)") && len(b) > 0 && b[0] == "$0.responseHeaders" ||
+			eff[0] == "(header.Headers).ModifyResponse($0.responseHeaders, $0)")
 		if isConnect && len(eff) != 0 {
 			why = append(why, "response to CONNECT is modified")
 		}
@@ -463,10 +467,10 @@ func c16r5(r *R) {
 			return
 		}
 		d := describe(va[0])
-		if describe(st.Addr) == "$0.httpProxyConfig.RequestModifiers" && d == "closure:"+fname(reqLit) {
+		if describe(st.Addr) == "$0.httpProxyConfig.RequestModifiers" && (d == "closure:"+fname(reqLit) || d == "closure:"+fname(reqLit)+"$bound") {
 			okReq = true
 		}
-		if describe(st.Addr) == "$0.httpProxyConfig.ResponseModifiers" && d == "closure:"+fname(resLit) {
+		if describe(st.Addr) == "$0.httpProxyConfig.ResponseModifiers" && (d == "closure:"+fname(resLit) || d == "closure:"+fname(resLit)+"$bound") {
 			okRes = true
 		}
 	})
@@ -498,7 +502,7 @@ func c16r5(r *R) {
 	// upstream CONNECT header: connect rules applied in GetProxyConnectHeader
 	tp := r.method("command/run", "command", "configureTransportProxy")
 	found := false
-	for _, lit := range tp.AnonFuncs {
+	for _, lit := range anonFuncs(tp) {
 		for _, c := range calls(lit, nameHasSuffix("header.Header).Apply")) {
 			recv := describePointee(c.Common().Args[0])
 			bs := closureBindings(lit)
